@@ -50,6 +50,12 @@ class Sched:
             cl = self._iter_closure(body, c)
             if cl is not None:
                 return 'iter-closure'
+        if name in ('core::bool::then', 'std::bool::then'):
+            at = q.arg_terms(c)
+            if len(at) == 2 and at[1][0] == 'closure':
+                cb = self.fx.by_path.get(at[1][1])
+                if cb is not None and self.body_relevant(cb):
+                    return 'cond-closure'
         return None
 
     def _iter_closure(self, body, c):
@@ -259,6 +265,19 @@ class Sched:
                         for sp in sub:
                             go(nxt, items + [_subst_item(x, env) for x in sp], counts)
                         return
+                    elif ck == 'cond-closure':
+                        # cond.then(|| reads..): the closure runs exactly when cond holds
+                        at_ = q.arg_terms(c)
+                        cl = at_[1]
+                        cb = self.fx.by_path[cl[1]]
+                        nxt = t.get('target')
+                        if nxt is None:
+                            return
+                        subs = [[_subst_closure_item(x, cl) for x in sp] for sp in self.paths(cb)]
+                        go(nxt, items + self._cond_items(at_[0], False), counts)
+                        for sp in subs:
+                            go(nxt, items + self._cond_items(at_[0], True) + sp, counts)
+                        return
                     elif ck == 'iter-closure':
                         rng, cl, cb = self._iter_closure(body, c)
                         sub = self.paths(cb)
@@ -334,9 +353,27 @@ class Sched:
             return ('R', 'bytes-zlib', site, None, True, at[1], c.span)
         raise AssertionError(name)
 
+    def _cond_items(self, c, truth):
+        """decision items for `cond == truth` where cond is a term (not a branch in the CFG)"""
+        if c[0] == 'bin' and c[1] in ('Ne', 'Eq') and c[2][0] == 'bin' and c[2][1] == 'BitAnd' and q.const_val(c[3]) is not None \
+                and q.const_val(c[2][3]) is not None:
+            mask = q.const_val(c[2][3])
+            cmpv = q.const_val(c[3])
+            is_set = truth if (c[1] == 'Ne' and cmpv == 0) or (c[1] == 'Eq' and cmpv == mask) else (not truth)
+            return [('D', 'flag', c[2][2], mask, is_set)]
+        if c[0] == 'bin' and c[1] in ('Eq', 'Ne', 'Lt', 'Le', 'Gt', 'Ge') and q.const_val(c[3]) is not None:
+            return [('D', 'cmp', c[1], c[2], q.const_val(c[3]), truth)]
+        return [('D', 'opaque', c, (1 if truth else 0,))]
+
     def _decision(self, body, bb, cond, succ, loop_count_term):
         t = body.blocks[bb]['term']
         vals = q.edge_value(body, bb, succ)
+        # `while c < n { ..; c += 1 }`: the header test is the iteration test of the equivalent `for c in s..n`
+        for L_ in body.cfg.loops:
+            if L_['header'] == bb:
+                rng = q.counter_loop(body, L_)
+                if rng is not None:
+                    return ('D', 'loop', rng, 'iter' if succ in L_['body'] else 'exit')
         # loop iteration test
         if cond[0] == 'discr' and cond[1][0] == 'next':
             it = q.unwrap_into_iter(cond[1][1])
